@@ -345,10 +345,54 @@ def r2(chk, prog):
             chk.check(ok, 'R2', f.name, 'clear() empties the container [%s]' % tag, f.loc())
 
 
-def r3(chk, prog):
-    eng = c04.make_engine(prog)
-    c04.r5_fixed_size(chk, prog, eng, rule='R3')
-    # unique test over the filled prefix
+def r3_tuple_capacity(chk, prog):
+    """a tuple destination refuses more elements than it holds: common::tuple_at_index( index, tuple, f) - the
+    helper through which TypedArg< std::tuple<...>> stores element number `index` - is evaluated abstractly (Engine B)
+    for every instantiation: a step calls f exactly for index == 0 and hands index - 1 on; the overload behind the
+    last element throws for every index >= 0 (= an original index >= the number of elements) and only for those"""
+    from ..boolshape import Interp, NeedAtom, Unsupported
+    fs = [f for f in prog.functions if f.name == 'celma::common::tuple_at_index' and f.body is not None]
+    chk.require(len(fs) >= 4, 'instantiations of common::tuple_at_index: %d' % len(fs))
+    n_end = n_step = 0
+    for f in sorted(fs, key=lambda x: x.key):
+        rec = [c for c in f.calls() if (c.get('callee') or '').startswith('celma::common::tuple_at_index')]
+        ip = f.params[0]['name'] or 'index'
+        if not f.params[0]['name']:
+            continue                        # the overload for I beyond the size: unconditional throw
+        for idx in (-3, -1, 0, 1, 5):
+            ev = {'f': 0, 'next': []}
+
+            def cb_rec(it, call):
+                ev['next'].append(it.ev_obj(call_args(call)[0]))
+                return 0
+
+            def cb_f(it, call):
+                ev['f'] += 1
+                return 0
+            it = Interp(f, {ip: idx}, callbacks={'tuple_at_index': cb_rec, 'operator()': cb_f,
+                                                  'get': lambda it, call: 0}, prog=None)
+            try:
+                out = it.run(f.body)
+            except (NeedAtom, Unsupported) as e:
+                raise AnalysisBroken('tuple_at_index not interpretable (%s): %s' % (f.key[:80], getattr(e, 'key', e)))
+            if not rec:
+                n_end += 1
+                want = idx >= 0
+                chk.check((out[0] == 'throw') == want, 'R3', f.name, 'behind the last element: index %d %s' % (
+                    idx, 'is refused (the tuple has no such element)' if want else
+                    'is fine (the element was handled on the way)'), f.loc(),
+                    'the overload %s' % ('throws' if out[0] == 'throw' else 'returns normally'))
+            else:
+                n_step += 1
+                ok = out[0] == 'return' and ev['f'] == (1 if idx == 0 else 0) and ev['next'] == [idx - 1]
+                chk.check(ok, 'R3', f.name, 'a step handles the element for index 0 only and hands index - 1 on '
+                          '[index %d]' % idx, f.loc(), 'f called %d time(s), handed on %s' % (ev['f'], ev['next']))
+    chk.require(n_end >= 5 and n_step >= 5, 'tuple_at_index evaluations: %d end / %d step' % (n_end, n_step))
+
+
+def r3_unique_prefix(chk, prog, rule='R3'):
+    """unique test of the fixed-size destinations over the filled prefix only (unused elements still hold their
+    default and must neither count as duplicates nor make a valid value be refused)"""
     n = 0
     for f in prog.functions:
         if f.short != 'assign' or not f.cls or not re.search(r'TypedArg<(.*\[\d+\]|std::array<.*)>$', f.cls):
@@ -357,9 +401,17 @@ def r3(chk, prog):
         for c in members:
             n += 1
             ok = any(mentions_field(a, 'mIndex') for a in call_args(c))
-            chk.check(ok, 'R3', f.name, 'the duplicate test looks only at the elements stored so far [%s]' % short_cls(f),
+            chk.check(ok, rule, f.name, 'the duplicate test looks only at the elements stored so far [%s]' % short_cls(f),
                       f.loc(c), 'the whole array is searched: unused (default) elements count as duplicates')
     chk.require(n >= 3, 'duplicate tests of fixed-size destinations: %d' % n)
+    return n
+
+
+def r3(chk, prog):
+    r3_tuple_capacity(chk, prog)
+    eng = c04.make_engine(prog)
+    c04.r5_fixed_size(chk, prog, eng, rule='R3')
+    r3_unique_prefix(chk, prog, 'R3')
     # tuple: never more values than elements
     for f in prog.functions:
         if f.short == 'assign' and f.cls and 'TypedArg<std::tuple<' in f.cls:
